@@ -525,25 +525,36 @@ func translate(ctx *context, args []Datum) (retLit Datum) {
 		return NewLiteralDatum(src)
 	}
 
-	var toChar string
-	var alreadyTranslated = make(map[string]bool)
-	for index, fromChar := range from {
-		// Ensure we don't translate twice.
-		if _, present := alreadyTranslated[string(fromChar)]; present {
+	// Work character by character: the first occurrence of a character in
+	// 'from' decides; it maps to the character at the same position in 'to'
+	// or, if there is none, is removed.
+	toRunes := []rune(to)
+	replacement := make(map[rune]rune)
+	remove := make(map[rune]bool)
+	index := 0
+	for _, fromChar := range from {
+		if _, seen := replacement[fromChar]; !seen && !remove[fromChar] {
+			if index < len(toRunes) {
+				replacement[fromChar] = toRunes[index]
+			} else {
+				remove[fromChar] = true
+			}
+		}
+		index++
+	}
+
+	var b strings.Builder
+	for _, srcChar := range src {
+		if remove[srcChar] {
 			continue
 		}
-		alreadyTranslated[string(fromChar)] = true
-
-		// Work out required replacement / removal
-		if index < len(to) {
-			toChar = to[index : index+1]
+		if toChar, ok := replacement[srcChar]; ok {
+			b.WriteRune(toChar)
 		} else {
-			toChar = ""
+			b.WriteRune(srcChar)
 		}
-
-		src = strings.Replace(src, string(fromChar), toChar,
-			-1 /* replace all */)
 	}
+	src = b.String()
 
 	return NewLiteralDatum(src)
 }
